@@ -66,10 +66,12 @@ class Spy:
 
             def save(self, path, *a, **kw):       # pickles by class reference: save as the real class
                 self.__class__ = spy.real
+                spy.bbm.BitBirch = spy.real
                 try:
                     return spy.real.save(self, path, *a, **kw)
                 finally:
                     self.__class__ = SpyBB
+                    spy.bbm.BitBirch = SpyBB
         self.cls = SpyBB
 
     def __enter__(self):
